@@ -4079,13 +4079,20 @@ impl CanonicalizeContext {
 	
 		let mut parsed_mrow = top_of_stack.mrow;
 		assert_eq!( name(&top_of_stack.mrow), "mrow");
+		let mut id_of_lifted_child = None;
 		if parsed_mrow.children().len() == 1 && is_ok_to_merge_child {
 			parsed_mrow = top_of_stack.remove_last_operand_from_mrow();
 			// was synthesized, but is really the original top level mrow
+			id_of_lifted_child = parsed_mrow.attribute_value("id").map(|id| id.to_string());
 		}
 	
 		parsed_mrow.remove_attribute(CHANGED_ATTR);
-		return Ok( add_attrs(parsed_mrow, &saved_mrow_attrs) );
+		let parsed_mrow = add_attrs(parsed_mrow, &saved_mrow_attrs);
+		if let Some(id) = id_of_lifted_child {
+			// the mrow is gone -- the id of the child (e.g., a token with an id given by the author) stays with the child (as in clean_mathml())
+			parsed_mrow.set_attribute_value("id", &id);
+		}
+		return Ok( parsed_mrow );
 	}	
 }
 
